@@ -83,6 +83,18 @@ unsafe fn t_remove(addr: usize) -> Option<Entry> {
     TABLE[hole].addr = 0;
     Some(found)
 }
+unsafe fn t_peek(addr: usize) -> Option<Entry> {
+    let mut i = slot(addr);
+    loop {
+        if TABLE[i].addr == 0 {
+            return None;
+        }
+        if TABLE[i].addr == addr {
+            return Some(TABLE[i]);
+        }
+        i = (i + 1) & (TSIZE - 1);
+    }
+}
 fn violation(kind: usize, a: usize, b: usize) {
     VIOLATIONS.fetch_add(1, SeqCst);
     LAST_VIOLATION.store(kind, SeqCst);
@@ -181,10 +193,16 @@ unsafe impl GlobalAlloc for Tracker {
         }
     }
     unsafe fn realloc(&self, ptr: *mut u8, layout: Layout, new_size: usize) -> *mut u8 {
+        // copy what the block really holds (the ledger knows), whatever size the caller claims;
+        // a wrong claim is recorded by `dealloc` below as a contract violation
+        lock();
+        let real = t_peek(ptr as usize);
+        unlock();
+        let have = real.map(|e| e.size).unwrap_or(layout.size());
         let nl = Layout::from_size_align_unchecked(new_size, layout.align());
         let p = self.raw_alloc(nl, false);
         if !p.is_null() {
-            std::ptr::copy_nonoverlapping(ptr, p, layout.size().min(new_size));
+            std::ptr::copy_nonoverlapping(ptr, p, have.min(layout.size()).min(new_size));
             self.dealloc(ptr, layout);
         }
         p
